@@ -568,6 +568,18 @@ def execOne (v : Variant) (s : Cpu) (b : β) : Cpu × β :=
     | .pfxCB => execCB (stepQ o.2.1) o.2.2
     | i => exec v .none i (stepQ o.2.1) o.2.2
 
+/-- what the interrupt check at the start of `emulate` decides -/
+inductive Accept | none | int | nmi
+  deriving DecidableEq, Repr, Inhabited
+
+/-- the decision logic of `emulate` + `handle_interrupt`: nothing while `skip_interrupt` is set,
+else NMI first, else INT if IFF1 -/
+def decision (s : Cpu) (b : β) : Accept :=
+  if s.skipInt then .none
+  else if Bus.nmiActive b then .nmi
+  else if Bus.intActive b && s.iff1 then .int
+  else .none
+
 /-- the interrupt check at the start of `emulate` -/
 def checkInterrupt (s : Cpu) (b : β) : Cpu × β :=
   if s.skipInt then ({ s with skipInt := false }, b) else handleInterrupt s b
